@@ -2714,6 +2714,8 @@ def remove_redundant_chain_casts(source: str) -> str:
     )
 
     for node, args, func_outer in core.walk_wildcard(root, template):
+        if any(isinstance(arg, ast.Starred) for arg in args):
+            continue  # chain(*a) chains the elements of a; "{**a}" would even be a dict
         if func_outer == "iter" and len(args) >= 1:
             yield node, node.args[0]
         if func_outer == "iter" and not args:
